@@ -36,6 +36,21 @@ def main():
                     # (bool, user classes): stored and pickled as plain numbers / strings by both implementations
                     plan.append(dict(dump=fn, fam=fam, is_set=is_set, emb='mid' if len(plan) % 2 else 'ext', leaf=lf,
                                      internal=it, nkeys=nk, indices=idx[:60] if quick else idx[:1500], keep_pickles=0, argtype='sub'))
+    # trees with loose separators (BTreeImpl!Loosen, loosened at the end of the history): what an older database holds must
+    # round-trip and pickle identically in both implementations too
+    for (nk, nv, lf, it) in ([(5, 1, 2, 2)] if quick else [(6, 1, 2, 2), (5, 1, 2, 3)]):
+        r = tlc.run('StateImpl', shapes.cfg(nk, nv, lf, it, spec='SpecLooseEnd', invariants=('RoundTripOK', 'FormsOK')), timeout=3000)
+        ck.add_tlc(r.summary(), 'StateImpl with loose separators keys=%d vals=%d sizes=(%d,%d)' % (nk, nv, lf, it))
+        common.tlc_verdict(ck, r, ck.notes['tlc_runs'][-1]['name'])
+        fn, payloads, summ = shapes.dump_file(nk, nv, lf, it, spec='SpecLooseEnd', module='StateImpl', dev=DEV, dumpop='DumpS')
+        ck.add_tlc(summ, 'dump (state forms, loose separators) keys=%d sizes=(%d,%d)' % (nk, lf, it))
+        lidx = [i for i, tr in enumerate(payloads) if tr['act']['op'] == 'loosen']
+        ck.rng.shuffle(lidx)
+        ck.bump('loose_transitions', len(lidx))
+        for fam in fams:
+            for is_set in (True, False):
+                plan.append(dict(dump=fn, fam=fam, is_set=is_set, emb='mid', leaf=lf, internal=it, nkeys=nk,
+                                 indices=sorted(lidx[:(60 if quick else 2000)]), keep_pickles=10, nofollow_py=True))
     results = jobs.run_jobs('harness.workers.state_worker', plan)
     stage2 = []
     for job, res, err in results:
